@@ -261,7 +261,7 @@ def trimI (s : List Int) : List Int :=
   | none => s
   | some t => if t = s.length - 1 ∨ t = 0 then s else s.take (t + 1)
 
-/-- the flush flag of `adjustFirstRun` on values -/
+/-- the flush flag of `adjustFirstRunR` on values -/
 def flushI (t : List Int) : Bool :=
   ((findTurns ((0 :: t) ++ t)).map (·.1)).contains t.length
 
@@ -279,11 +279,11 @@ theorem drop_one (s : List Int) : dropTrailingNonReversals (one s) = one (trimI 
 
 open PylifeVerif.C04 in
 theorem adjust_one (t : List Int) (ht : t ≠ []) :
-    adjustFirstRun (one t) = (one (0 :: t), flushI t) := by
+    adjustFirstRunR (one t) = (one (0 :: t), flushI t) := by
   cases t with
   | nil => exact absurd rfl ht
   | cons x xs =>
-    unfold adjustFirstRun flushI
+    unfold adjustFirstRunR flushI
     have e : (List.replicate ((one (x :: xs)).headD []).length 0 :: one (x :: xs)) = one (0 :: x :: xs) := rfl
     simp only [e, one_rep]
     simp [one]
@@ -340,7 +340,7 @@ theorem findTurns_tail_nil (p : List Int) : findTurns (p.drop (lastIdx (findTurn
     exact List.eq_nil_of_length_eq_zero (by omega)
   simpa [shiftPts] using h2
 
-/-- results of the two `newTurns` calls of `twoPass` on the trimmed value sequence `t` -/
+/-- results of the two `newTurns` calls of `twoPassR` on the trimmed value sequence `t` -/
 def r1 (t : List Int) : TurnState × List Pt := newTurns {} (0 :: t) (flushI t)
 def r2 (t : List Int) : TurnState × List Pt := newTurns (r1 t).1 t true
 
@@ -381,9 +381,9 @@ open PylifeVerif.C04 in
 /-- **Part H.**  On a one-point sequence the two passes are the HCM loop run on the values of the
 turning points of the trimmed sequence. -/
 theorem twoPass_one (law : Law) (s : List Int) (hs : trimI s ≠ []) :
-    core (twoPass law (one s)) =
+    core (twoPassR law (one s)) =
       feed law (feed law {} 1 (one (fedI (trimI s)).1)) 1 (one (fedI (trimI s)).2) := by
-  unfold twoPass
+  unfold twoPassR
   rw [drop_one]
   simp only []
   rw [adjust_one _ hs]
@@ -1103,11 +1103,11 @@ theorem trimI_rep (n : Nat) (a : Int) : trimI (List.replicate n a) = List.replic
 
 /-- a constant sequence records nothing -/
 theorem const_twoPass (law : Law) (n : Nat) (a : Int) (hn : 0 < n) :
-    (twoPass law (one (List.replicate n a))).recs = [] := by
+    (twoPassR law (one (List.replicate n a))).recs = [] := by
   have hne : List.replicate n a ≠ [] := by
     intro h; have := congrArg List.length h; simp at this; omega
-  have hc : (twoPass law (one (List.replicate n a))).recs =
-      (core (twoPass law (one (List.replicate n a)))).recs := rfl
+  have hc : (twoPassR law (one (List.replicate n a))).recs =
+      (core (twoPassR law (one (List.replicate n a)))).recs := rfl
   rw [hc, twoPass_one law _ (by rw [trimI_rep]; exact hne), trimI_rep]
   have hl : (List.replicate n a).getLast hne = a := by simp
   have hl0 : (0 :: List.replicate n a).getLast (List.cons_ne_nil _ _) = a := by
